@@ -23,6 +23,16 @@ def chance(draw, num, den=10):
     return draw(INT(0, den - 1)) >= den - num
 
 
+def shuffled(draw, seq):
+    """A permutation of seq by Fisher-Yates over integer draws (st.permutations rejects nearly every byte string handed to
+    fuzz_one_input, which starves the atheris bridge)."""
+    out = list(seq)
+    for i in range(len(out) - 1, 0, -1):
+        j = draw(INT(0, i))
+        out[i], out[j] = out[j], out[i]
+    return out
+
+
 STR_LABELS = ["A", "B", "C", "D", "E", "F", "G", "H", "I", "J", "K", "L", "M", "N", "P", "Q", "R", "S",
               "X1", "X2", "Y1", "n7", "aa", "ab", "ba", "Zed", "10", "3"]
 
@@ -32,12 +42,12 @@ def labels(draw, n, kind):
     """n distinct labels, homogeneous type (mixing 1 and '1' would alias edge names inside the package)."""
     if kind == "int":
         base = draw(st.sampled_from([0, 0, 1, 100, 4000000000]))
-        perm = draw(st.permutations(list(range(n + 3))))[:n]
+        perm = shuffled(draw, range(n + 3))[:n]
         return [base + p for p in perm]
     if kind == "negint":
-        perm = draw(st.permutations(list(range(-3, n + 2))))[:n]
+        perm = shuffled(draw, range(-3, n + 2))[:n]
         return list(perm)
-    perm = draw(st.permutations(STR_LABELS))[:n]
+    perm = shuffled(draw, STR_LABELS)[:n]
     return list(perm)
 
 
